@@ -114,7 +114,10 @@ class C01(Property):
                     nm = rng.choice(gen.PROP_NAMES)
                     if nm not in cur:
                         # the property is created directly, or arrives with an upgrade of the event type (Ontology.update)
-                        ops.append({'k': rng.choice(['add', 'addu', 'addu']), 'n': nm, 's': rng.choice(['match', 'any'])})
+                        ops.append({'k': rng.choice(['add', 'add', 'addu', 'addu']), 'n': nm, 's': rng.choice(['match', 'any'])})
+                        if ops[-1]['k'] == 'add' and rng.random() < 0.5:
+                            # through the mapping interface of the event type (et[name] = EventProperty(...)) / add_property()
+                            ops[-1]['how'] = rng.choice(['item', 'add_property'])
                         if ops[-1]['k'] == 'addu' and rng.random() < 0.5:
                             # the same upgrade, offered together with a definition of the event source that is in conflict with
                             # ours: the update is refused after the event type was upgraded (updates are not atomic)
@@ -124,6 +127,8 @@ class C01(Property):
                     nm = rng.choice(cur)
                     cur.remove(nm)
                     ops.append({'k': 'del', 'n': nm})
+                    if rng.random() < 0.5:
+                        ops[-1]['how'] = 'item'      # del et[name]
             ops.append({'k': 'get'})
             ev = self.gen_event(rng, cur or names)
             c = {'kind': 'memo', 'ptypes': ptypes, 'ops': ops, 'event': ev}
@@ -197,6 +202,13 @@ class C01(Property):
                     continue
                 if op['k'] == 'set':
                     et[op['n']].set_merge_strategy(op['s'])
+                elif op['k'] == 'add' and op.get('how') in ('item', 'add_property'):
+                    from edxml.ontology import EventProperty
+                    prop = EventProperty(et, op['n'], o.get_object_type('o'), optional=True, multivalued=True, merge=op['s'])
+                    if op['how'] == 'item':
+                        et[op['n']] = prop
+                    else:
+                        et.add_property(prop)
                 elif op['k'] == 'add':
                     et.create_property(op['n'], 'o').make_optional().make_multivalued().set_merge_strategy(op['s'])
                 elif op['k'] == 'addu':
@@ -218,6 +230,8 @@ class C01(Property):
                             pass
                     else:
                         o.update(o2)
+                elif op['k'] == 'del' and op.get('how') == 'item':
+                    del et[op['n']]
                 elif op['k'] == 'del':
                     et.remove_property(op['n'])
                 outs.append(None)
